@@ -534,7 +534,10 @@ func runC05(c *Ctx) {
 		}
 		c.CheckTrivial("module::raw-Cache.Get-sites", token.NoPos, nGet == 0, "%d raw Cache.Get call sites outside lintcmd/cache", nGet)
 		gcf := c.Func("lintcmd/runner", "getCachedFiles")
-		gf := CallsTo(gcf, false, cachePkg+".GetFile")
+		var gf []ssa.CallInstruction
+		for _, f := range DeepFuncs(gcf, 2) {
+			gf = append(gf, CallsTo(f, false, cachePkg+".GetFile")...)
+		}
 		c.Check(FuncKey(gcf)+"::uses-GetFile", gcf.Pos(), len(gf) > 0, "the runner's cache lookups go through cache.GetFile")
 	})
 
@@ -626,7 +629,7 @@ func runC05(c *Ctx) {
 			call := ci.(*ssa.Call)
 			// its result must be what is written to the file
 			written := false
-			for _, w := range CallsTo(putIndex, false, "os.File.WriteString", "os.File.Write") {
+			for _, w := range CallsTo(putIndex, false, "os.File.WriteString", "os.File.Write", "io.WriteString", "fmt.Fprint") {
 				if DerivesLocal(w.Common().Args[1], func(v ssa.Value) bool { return v == ssa.Value(call) }) {
 					written = true
 				}
@@ -708,6 +711,51 @@ func runC05(c *Ctx) {
 				}
 			}
 		})
+		// … also when the header test lives in a helper that is handed the buffer (or a constant slice of it)
+		for _, ci := range Calls(get, false) {
+			h := ci.Common().StaticCallee()
+			if h == nil || h.Blocks == nil || FuncPkgPath(h) != FuncPkgPath(get) {
+				continue
+			}
+			for ai, a := range ci.Common().Args {
+				if ai >= len(h.Params) {
+					continue
+				}
+				base := int64(-1)
+				if a == root {
+					base = 0
+				} else if sl, isSl := a.(*ssa.Slice); isSl && sl.X == root {
+					base = 0
+					if sl.Low != nil {
+						if k, ok := ConstInt(sl.Low); ok {
+							base = k
+						} else {
+							base = -1
+						}
+					}
+				}
+				if base < 0 {
+					continue
+				}
+				prm := h.Params[ai]
+				Instrs(h, false, func(in ssa.Instruction) {
+					bo, ok := in.(*ssa.BinOp)
+					if !ok || (bo.Op != token.NEQ && bo.Op != token.EQL) {
+						return
+					}
+					k, isK := ConstInt(bo.Y)
+					u, isLoad := bo.X.(*ssa.UnOp)
+					if !isK || !isLoad {
+						return
+					}
+					if ia, ok := u.X.(*ssa.IndexAddr); ok && ia.X == ssa.Value(prm) {
+						if i, ok := ConstInt(ia.Index); ok && k >= 0 && k < 256 {
+							readerLit[base+i] = byte(k)
+						}
+					}
+				})
+			}
+		}
 		agree := len(readerLit) > 0
 		diff := ""
 		for i, b := range readerLit {
@@ -774,7 +822,7 @@ func runC05(c *Ctx) {
 			}
 			// the (outermost constant) slice of the entry buffer the argument derives from
 			var best *span
-			for x := range BackSlice(src, SliceOpts{NoMemory: true}) {
+			for x := range BackSlice(src, SliceOpts{NoMemory: true, ThroughCalls: true}) {
 				if lo, hi, ok := absolute(x); ok {
 					if best == nil || hi-lo < best.hi-best.lo {
 						best = &span{lo, hi}
@@ -849,7 +897,7 @@ func runC05(c *Ctx) {
 		// Truncate only after the write succeeded
 		for _, ci := range CallsTo(putIndex, false, "os.File.Truncate") {
 			wrote := false
-			for _, w := range CallsTo(putIndex, false, "os.File.WriteString", "os.File.Write") {
+			for _, w := range CallsTo(putIndex, false, "os.File.WriteString", "os.File.Write", "io.WriteString", "fmt.Fprint") {
 				if InstrDominates(w, ci) {
 					wrote = true
 				}
